@@ -5,7 +5,7 @@ from simkit.gen_hier import ScriptGen
 from simkit import corpus, textgen_edif
 from simkit.oracles.canon import named, dict_diff, _freeze
 from simkit.oracles.links import check_links
-from simkit.oracles.mirror import check_mirror, check_self_contained
+from simkit.oracles.mirror import check_mirror, check_self_contained, check_wire_endpoints
 from simkit.model import scan
 from simkit.violation import Violation
 from simkit.world import World
@@ -120,6 +120,7 @@ class C05(Prop):
         check_links(objs, disc, w.name_of, P="C05.wellformed")
         check_mirror(objs, disc, w.name_of, P="C05.wellformed")
         check_self_contained(n, objs, disc, w.name_of, "C05.wellformed")
+        check_wire_endpoints(n, disc, w.name_of, P="C05.wellformed")
         if World.process_state_fingerprint() != pre:
             raise Violation("C05.process_state", disc, "parse changed process-wide settings")
         if not self.design:
